@@ -1093,6 +1093,11 @@ func isSetInsert(mu *ssa.MapUpdate) bool {
 // structParamField: v reads field f of a structure that is a parameter of the function (or, inside a private helper,
 // of the function the helper is part of): `p.f` for a value parameter p, spilled or not.
 func structParamField(v ssa.Value) (*ssa.Parameter, *types.Var) {
+	return structParamFieldIn(v, nil)
+}
+
+// structParamFieldIn: the same, stopping at a parameter of fn instead of following it into fn's caller.
+func structParamFieldIn(v ssa.Value, fn *ssa.Function) (*ssa.Parameter, *types.Var) {
 	var base ssa.Value
 	var f *types.Var
 	switch x := v.(type) {
@@ -1139,6 +1144,9 @@ func structParamField(v ssa.Value) (*ssa.Parameter, *types.Var) {
 		p, isP := base.(*ssa.Parameter)
 		if !isP {
 			return nil, nil
+		}
+		if fn != nil && p.Parent() == fn {
+			return p, f
 		}
 		r := resolveArg(p)
 		if r == ssa.Value(p) {
